@@ -161,6 +161,7 @@ class CallGraph:
         # function values that travel through a local (`impl = a; if (..) impl = b; global = impl;`) or a conditional
         # expression: flow-insensitive, every function the local may hold
         self.local_funcs = {}    # (function, local) -> set of function names
+        self.ret_funcs = {}      # function -> set of function names it may return
 
         def fvals(name, e):
             e = strip(e)
@@ -174,6 +175,8 @@ class CallGraph:
                 return set()
             if e["k"] == "ConditionalOperator":
                 return fvals(name, e["kids"][1]) | fvals(name, e["kids"][2])
+            if e["k"] == "CallExpr" and e.get("callee"):
+                return set(self.ret_funcs.get(e["callee"], ()))      # a selector function that returns the function to install
             return set()
 
         changed = True
@@ -181,6 +184,14 @@ class CallGraph:
             changed = False
             for (u, name), f in self.funcs.items():
                 for n in walk(f.body):
+                    if n["k"] == "ReturnStmt":
+                        ks_ = kids(n)
+                        if ks_:
+                            src = fvals(name, ks_[0])
+                            dst = self.ret_funcs.setdefault(name, set())
+                            if src and not src <= dst:
+                                dst |= src
+                                changed = True
                     if n["k"] == "DeclStmt":
                         for d in n["decls"]:
                             if d.get("init") is not None:
